@@ -7,7 +7,7 @@ From Coq Require Import NArith List Bool.
 From LV Require Import lib.Bytes lib.Lex lib.SortedMap spec.KvSpec spec.KvOps spec.KvStackSpec
   model.PrefixRange model.Table model.Flushable model.KvStack
   proofs.TableView proofs.TableCompact proofs.KvStackReads proofs.KvStackWrites proofs.KvStackViews
-  proofs.KvStackRefine.
+  proofs.KvStackRefine proofs.KvIsolation.
 Import ListNotations.
 Local Open Scope N_scope.
 
@@ -79,11 +79,28 @@ Proof. exact compact_covers_sound. Qed.
 
 (* all histories (sibling / nested tables as handles, raw access, batches, snapshots): the model
    run equals the specification run, in which a table is literally the prefix view *)
-Theorem C24_histories : forall ideal s0 ss0 ops, R s0 ss0 -> Forall op_wf ops ->
-  map erase (run ideal s0 ops) = spec_run ss0 ops.
+Theorem C24_histories : forall lsafe ideal s0 ss0 ops, R s0 ss0 -> Forall op_wf ops ->
+  map erase (run lsafe ideal s0 ops) = spec_run lsafe ss0 ops.
 Proof. exact run_refines. Qed.
 
+(* isolation over whole histories: inserting, anywhere, writes through handles inside the key space
+   of Q changes no observation of a history that reads only through handles (same level of the
+   stack) whose full prefix is incomparable with Q — on the specification and on the model run *)
+Theorem C24_history_isolation_spec : forall d Q lsafe ss0 l1 l2, swf ss0 -> inserted d Q l1 l2 ->
+  Forall (p_op d Q) l1 -> spec_run lsafe ss0 l2 = spec_run lsafe ss0 l1.
+Proof. exact spec_isolation. Qed.
+Theorem C24_history_isolation : forall d Q lsafe ideal s0 ss0 l1 l2, R s0 ss0 ->
+  inserted d Q l1 l2 -> Forall (p_op d Q) l1 -> Forall op_wf l1 -> Forall op_wf l2 ->
+  map erase (run lsafe ideal s0 l2) = map erase (run lsafe ideal s0 l1).
+Proof. exact model_isolation. Qed.
+
 (* non-vacuity *)
+Example C24_ex_isolation :
+  let hp := {| h_d := 0; h_path := [[97]] |} in
+  let hq := {| h_d := 0; h_path := [[98]; [0]] |} in
+  inserted 0 [98] [OPut hp [1] []; OGet hp [1]] [OPut hq [1] [2]; OPut hp [1] []; ODel hq []; OGet hp [1]]
+  /\ Forall (p_op 0 [98]) [OPut hp [1] []; OGet hp [1]].
+Proof. exact isolation_nonvacuous. Qed.
 Example C24_ex_state :
   let u := Eng ELdb [([97; 1], [5]); ([97; 255], []); ([98], [6])] in
   wf_st (Tab [97] u) /\ R (Tab [97] u) (STab [97] (SEng [([97; 1], [5]); ([97; 255], []); ([98], [6])])) /\
@@ -118,3 +135,5 @@ Print Assumptions C24_compact_covers.
 Print Assumptions C24_compact_covers_nested.
 Print Assumptions C24_compact_covers_meaning.
 Print Assumptions C24_histories.
+Print Assumptions C24_history_isolation_spec.
+Print Assumptions C24_history_isolation.
